@@ -25,6 +25,8 @@ class FaultyFile:
 
     def write(self, b):
         self._nwrites += 1
+        if not isinstance(b, (bytes, bytearray)):
+            b = memoryview(b).cast('B')          # pickle protocol 5 hands out PickleBuffer objects (no len())
         self._seam.tick('write', n=len(b))
         if self._fault is not None:
             kind, arg = self._fault
